@@ -79,6 +79,12 @@ def generate(ctx):
         s = rng.randrange(-(10**9), 4 * 10**9)
         off = rng.choice([0, 0, 60, -60, 330, -570, 1, -1])
         cases.append({"kind": "iso", "u": s * 10**6 + rng.choice([0, 0, 500000, 1, 999999]), "off": off, "minus_zero": off == 0 and rng.random() < 0.5})
+    # ISO-8601 texts, systematic: every offset spelling (incl. the negative-UTC one) x both sides of
+    # the epoch x whole / fractional seconds
+    for off, mz in [(0, False), (0, True), (60, False), (-60, False), (330, False), (-570, False), (1, False), (-1, False), (839, False), (-719, False)]:
+        for sec in (-(10**10), -86401, -86400, -2, -1, 0, 1, 86399, 1582810759, 4 * 10**9):
+            for us in (0, 1, 250000, 500000, 999999):
+                cases.append({"kind": "iso", "u": sec * 10**6 + us, "off": off, "minus_zero": mz})
     # recorded offset bytes: canonical and odd, kept verbatim / parsed leniently
     for b in [b"+0000", b"-0000", b"+0200", b"-0200", b"+200", b"-200", b"+02", b"-02", b"+0010", b"+0160", b"+200000000000000000", b"+051800", b"-1200", b"+1400", b"+9999", b"-9999", b"+54607", b"-54608", b"+54608", b"+5", b"-5", b"+00059", b"+00060"]:
         cases.append({"kind": "offbytes", "bytes": hx(b)})
